@@ -12,6 +12,8 @@
 #include <fstream>
 #include <chrono>
 #include <unistd.h>
+#include <signal.h>
+#include <sys/time.h>
 #include <functional>
 
 namespace hc {
@@ -22,7 +24,10 @@ inline std::vector<std::string>& ubsan_reports() { static std::vector<std::strin
 // ---- small PRNG for *configuration* generation (separate stream from the scheduler's) ---------------------
 struct Rng {
     uint64_t s;
-    explicit Rng(uint64_t seed) : s(seed * 0x9E3779B97F4A7C15ULL + 0x1234567ULL) {}
+    // the state of a splitmix64 stream advances by a constant, so seeding with seed*constant would make the stream of
+    // seed+1 the stream of seed shifted by one draw; scramble the seed first
+    static uint64_t mix(uint64_t z) { z = (z ^ (z >> 30)) * 0xBF58476D1CE4E5B9ULL; z = (z ^ (z >> 27)) * 0x94D049BB133111EBULL; return z ^ (z >> 31); }
+    explicit Rng(uint64_t seed) : s(mix(mix(seed + 0x1234567ULL) ^ 0xA5A5A5A5DEADBEEFULL)) {}
     uint64_t u64() { uint64_t z = (s += 0x9E3779B97F4A7C15ULL); z = (z ^ (z >> 30)) * 0xBF58476D1CE4E5B9ULL; z = (z ^ (z >> 27)) * 0x94D049BB133111EBULL; return z ^ (z >> 31); }
     int below(int n) { return n <= 1 ? 0 : (int)(u64() % (uint64_t)n); }
     int range(int lo, int hi) { return lo + below(hi - lo + 1); }
@@ -156,6 +161,18 @@ struct RunSpec {
 
 typedef std::function<Outcome(RunSpec&)> RunFn;
 
+// CPU-time watchdog: a rank that spins without ever making a simulated call never returns control to the scheduler.
+// ITIMER_VIRTUAL counts this process's own CPU time, so machine load cannot trigger it.
+inline void watchdog_handler(int) {
+    static const char msg[] = "SIM-WATCHDOG: the run consumed its CPU budget without returning to the scheduler (a rank spins without any MPI call)\n";
+    ssize_t r = write(2, msg, sizeof msg - 1); (void)r;
+    _exit(79);
+}
+inline void watchdog_arm(long cpu_seconds) {
+    struct itimerval it; memset(&it, 0, sizeof it); it.it_value.tv_sec = cpu_seconds;
+    setitimer(ITIMER_VIRTUAL, &it, 0);
+}
+
 // called by a harness once the configuration of the run is final and before anything can crash:
 // lets the runner recover the configuration of a run that killed the worker
 inline FILE*& out_fp() { static FILE* f = nullptr; return f; }
@@ -168,10 +185,13 @@ inline int harness_main(int argc, char** argv, const char* name, const RunFn& ru
     uint64_t seed_start = 1, seed_step = 1; long max_runs = 1; double time_limit = 1e18;
     RunSpec base;
     bool verbose = false;
+    long watchdog = 150;
+    signal(SIGVTALRM, watchdog_handler);
     for (int i = 1; i < argc; i++) {
         std::string a = argv[i];
         auto next = [&]() -> std::string { if (i + 1 >= argc) { fprintf(stderr, "missing value for %s\n", a.c_str()); exit(2); } return argv[++i]; };
-        if (a == "--seed-start") seed_start = strtoull(next().c_str(), 0, 10);
+        if (a == "--watchdog") watchdog = atol(next().c_str());
+        else if (a == "--seed-start") seed_start = strtoull(next().c_str(), 0, 10);
         else if (a == "--seed-step") seed_step = strtoull(next().c_str(), 0, 10);
         else if (a == "--max-runs") max_runs = atol(next().c_str());
         else if (a == "--time-limit") time_limit = atof(next().c_str());
@@ -201,7 +221,9 @@ inline int harness_main(int argc, char** argv, const char* name, const RunFn& ru
         fprintf(out, "START %llu\n", (unsigned long long)rs.seed); fflush(out);
         ubsan_reports().clear();
         auto r0 = std::chrono::steady_clock::now();
+        watchdog_arm(watchdog);
         Outcome oc = run_one(rs);
+        watchdog_arm(0);
         double rt = std::chrono::duration<double>(std::chrono::steady_clock::now() - r0).count();
         std::ostringstream o;
         o << "RESULT {\"harness\":\"" << name << "\",\"seed\":" << rs.seed << ",\"verdict\":\"" << jesc(oc.verdict) << "\",\"detail\":\"" << jesc(oc.detail)
